@@ -240,18 +240,13 @@ impl<'a> CompilerState<'a> {
     }
 
     pub fn syntax_error(&self, message: &str, loc: usize) -> Error {
-        let mut line_number: usize = 0;
-        let mut char_number = 0;
-        for c in self.preprocessed_utf8.chars() {
-            // Count the newlines among the first `loc` characters (none when loc is 0)
-            if char_number == loc {
-                break;
-            }
-            if c == '\n' {
-                line_number += 1;
-            }
-            char_number += 1;
-        }
+        // `loc` is a byte offset (pest spans): count the newlines among the first `loc`
+        // bytes (none when loc is 0), whatever the width of the characters before it
+        let bytes = self.preprocessed_utf8.as_bytes();
+        let line_number: usize = bytes[..loc.min(bytes.len())]
+            .iter()
+            .filter(|b| **b == b'\n')
+            .count();
         // A position at or past the end of the text maps to the last line
         let line_number = line_number.min(self.mapped_lines.len().saturating_sub(1));
         let included_in = self.mapped_lines[line_number]
@@ -267,18 +262,13 @@ impl<'a> CompilerState<'a> {
     }
 
     pub fn compiler_error(&self, message: &str, loc: usize) -> Error {
-        let mut line_number: usize = 0;
-        let mut char_number = 0;
-        for c in self.preprocessed_utf8.chars() {
-            // Count the newlines among the first `loc` characters (none when loc is 0)
-            if char_number == loc {
-                break;
-            }
-            if c == '\n' {
-                line_number += 1;
-            }
-            char_number += 1;
-        }
+        // `loc` is a byte offset (pest spans): count the newlines among the first `loc`
+        // bytes (none when loc is 0), whatever the width of the characters before it
+        let bytes = self.preprocessed_utf8.as_bytes();
+        let line_number: usize = bytes[..loc.min(bytes.len())]
+            .iter()
+            .filter(|b| **b == b'\n')
+            .count();
         // A position at or past the end of the text maps to the last line
         let line_number = line_number.min(self.mapped_lines.len().saturating_sub(1));
         let included_in = self.mapped_lines[line_number]
@@ -294,18 +284,13 @@ impl<'a> CompilerState<'a> {
     }
 
     pub fn warning(&self, msg: &str, loc: usize) -> () {
-        let mut line_number: usize = 0;
-        let mut char_number = 0;
-        for c in self.preprocessed_utf8.chars() {
-            // Count the newlines among the first `loc` characters (none when loc is 0)
-            if char_number == loc {
-                break;
-            }
-            if c == '\n' {
-                line_number += 1;
-            }
-            char_number += 1;
-        }
+        // `loc` is a byte offset (pest spans): count the newlines among the first `loc`
+        // bytes (none when loc is 0), whatever the width of the characters before it
+        let bytes = self.preprocessed_utf8.as_bytes();
+        let line_number: usize = bytes[..loc.min(bytes.len())]
+            .iter()
+            .filter(|b| **b == b'\n')
+            .count();
         // A position at or past the end of the text maps to the last line
         let line_number = line_number.min(self.mapped_lines.len().saturating_sub(1));
         let included_in = self.mapped_lines[line_number]
